@@ -24,6 +24,7 @@ EXPLANATION = (
   " (COMPUTED) prune-or-keep decisions after style computation read the computed style of the ISD element, never the specified style of the source element;"
   " (TAB-compute-order) every compute() runs after the computes of the properties it reads;"
   " (STATE-alias / STATE-global) no function of the anchored modules mutates a module- or class-level container, rebinds module / class state or mutates a mutable default argument, so a result never depends on earlier calls;"
+  " (PAIR-compute) every uncomputed value copied onto the ISD element is registered, with the same property, in the set handed to _compute_styles;"
 )
 RULE_TEXT = "per length-bearing property, per mutator call on ISD-owned values, per return site, per document parameter"
 UNDECIDED = ["white-space collapsing results", "emptiness pruning as semantics (no empty text node, no childless span)",
